@@ -24,35 +24,73 @@ Section GenHeadProofs.
 
   Ltac split_if := lazymatch goal with |- context [if ?c then _ else _] => destruct c eqn:?E end.
 
-  Lemma gen_head_loop_spec : forall rgs (k : nat) (t n : Z), wf rgs ->
+  (* every boolean test of the regenerated loop condition is decided by case analysis; each resulting goal is either the
+     "stop here" or the "go on" branch *)
+  Ltac split_conds := repeat lazymatch goal with |- context [if ?c then _ else _] => destruct c eqn:? end.
+
+  Lemma gen_head_loop_spec : forall rgs (k : nat) (t n : Z), wf rgs -> (0 <= n)%Z ->
     exists t' z,
       head_loop D num_rows rgs (Z.of_nat k) (Some n) (Some t) (Some (Z.of_nat k - 1)%Z) = Some (Some t', Some z) /\
       (Z.of_nat k - 1 <= z)%Z /\ (rgs <> [] -> (Z.of_nat k <= z)%Z) /\
       firstn (Z.to_nat (n - t)) (concat (map rows (firstn (Z.to_nat (z + 1) - k) rgs)))
       = firstn (Z.to_nat (n - t)) (concat (map rows rgs)).
   Proof.
-    induction rgs as [|d rgs IH]; intros k t n H.
+    induction rgs as [|d rgs IH]; intros k t n H Hn.
     - exists t, (Z.of_nat k - 1)%Z. cbn [head_loop]. repeat split; try lia; try congruence.
       rewrite firstn_nil. reflexivity.
     - assert (Hd : nrows d = length (rows d)) by (apply H; left; reflexivity).
       assert (H' : wf rgs) by (eapply wf_incl; [exact H|apply incl_tl, incl_refl]).
-      cbn [head_loop]. unfold ocmp, oadd, o2. cbn beta iota.
-      split_if.
-      + (* the loop stops at this group: it already holds the first n - t rows of what remains *)
-        exists (t + num_rows d)%Z, (Z.of_nat k). repeat split; try lia.
-        replace (Z.to_nat (Z.of_nat k + 1) - k) with 1 by lia.
-        cbn [firstn map concat]. rewrite app_nil_r.
-        assert (Hm : Z.to_nat (n - t) <= length (rows d)) by (unfold num_rows in E; lia).
-        rewrite firstn_app. replace (Z.to_nat (n - t) - length (rows d)) with 0 by lia.
-        cbn [firstn]. rewrite app_nil_r. reflexivity.
-      + destruct (IH (S k) (t + num_rows d)%Z n H') as [t' [z [Hz [H1 [H2 H3]]]]].
-        replace (Z.of_nat k + 1)%Z with (Z.of_nat (S k)) by lia.
-        replace (Some (Z.of_nat k)) with (Some (Z.of_nat (S k) - 1)%Z) by (f_equal; lia).
-        exists t', z. split; [exact Hz|]. split; [lia|]. split; [intros _; lia|].
-        replace (Z.to_nat (z + 1) - k) with (S (Z.to_nat (z + 1) - S k)) by lia.
-        cbn [firstn map concat].
-        assert (Hm : Z.to_nat (n - t) = length (rows d) + Z.to_nat (n - (t + num_rows d))) by (unfold num_rows in *; lia).
-        rewrite Hm, !firstn_app_exact. f_equal. exact H3.
+      destruct (IH (S k) (t + num_rows d)%Z n H' Hn) as [t' [z [Hz [H1 [H2 H3]]]]].
+      cbn [head_loop]. unfold oandb, oorb, ocmp, oadd, osub, oneg, o2, option_map. cbn beta iota.
+      split_conds;
+      first
+      [ (* the loop stops at this group: it already holds the first n - t rows of what remains *)
+        exists (t + num_rows d)%Z, (Z.of_nat k); split; [reflexivity|];
+        repeat split; try lia;
+        replace (Z.to_nat (Z.of_nat k + 1) - k) with 1 by lia;
+        cbn [firstn map concat]; rewrite app_nil_r;
+        assert (Hm : Z.to_nat (n - t) <= length (rows d)) by (unfold num_rows in *; lia);
+        rewrite firstn_app; replace (Z.to_nat (n - t) - length (rows d)) with 0 by lia;
+        cbn [firstn]; rewrite app_nil_r; reflexivity
+      | (* the loop goes on *)
+        replace (Z.of_nat k + 1)%Z with (Z.of_nat (S k)) by lia;
+        replace (Some (Z.of_nat k)) with (Some (Z.of_nat (S k) - 1)%Z) by (f_equal; lia);
+        exists t', z; split; [exact Hz|]; split; [lia|]; split; [intros _; lia|];
+        replace (Z.to_nat (z + 1) - k) with (S (Z.to_nat (z + 1) - S k)) by lia;
+        cbn [firstn map concat];
+        destruct (Nat.le_gt_cases (Z.to_nat (n - t)) (length (rows d))) as [Hle|Hgt];
+        [ (* going on although this group already holds the rows asked for (a later stop is always safe) *)
+          rewrite !firstn_app; replace (Z.to_nat (n - t) - length (rows d)) with 0 by lia; cbn [firstn]; reflexivity
+        | assert (Hm : Z.to_nat (n - t) = length (rows d) + Z.to_nat (n - (t + num_rows d))) by (unfold num_rows in *; lia);
+          rewrite Hm, !firstn_app_exact; f_equal; exact H3 ] ].
+  Qed.
+
+  (* GEN: a NEGATIVE n ("all but the last -n rows") never stops the loop: every row group is selected, so head(n) is
+     DataFrame.head(n) of the full read (the pinned loop stopped at the first group: fix 85ccef2) *)
+  Lemma gen_head_loop_negative : forall rgs (k : nat) (t n : Z), (n < 0)%Z -> (0 <= t)%Z ->
+    exists t',
+      head_loop D num_rows rgs (Z.of_nat k) (Some n) (Some t) (Some (Z.of_nat k - 1)%Z)
+      = Some (Some t', Some (Z.of_nat k + Z.of_nat (length rgs) - 1)%Z) /\ (0 <= t')%Z.
+  Proof.
+    induction rgs as [|d rgs IH]; intros k t n Hn Ht.
+    - exists t. cbn [head_loop length]. split; [do 3 f_equal; lia|exact Ht].
+    - assert (Ht2 : (0 <= t + num_rows d)%Z) by (unfold num_rows; lia).
+      destruct (IH (S k) (t + num_rows d)%Z n Hn Ht2) as [t' [Hz Ht']].
+      cbn [head_loop]. unfold oandb, oorb, ocmp, oadd, osub, oneg, o2, option_map. cbn beta iota.
+      split_conds; try (exfalso; unfold num_rows in *; lia).
+      all: exists t'; split; [|exact Ht'].
+      all: replace (Z.of_nat k + 1)%Z with (Z.of_nat (S k)) by lia.
+      all: replace (Some (Z.of_nat k)) with (Some (Z.of_nat (S k) - 1)%Z) by (f_equal; lia).
+      all: rewrite Hz; cbn [length]; do 3 f_equal; lia.
+  Qed.
+
+  Theorem gen_head_negative_selects_everything : forall (rgs : list D) (n : Z), (n < 0)%Z ->
+    head_stop D num_rows rgs n = Some (Z.of_nat (length rgs)).
+  Proof.
+    intros rgs n Hn. unfold head_stop. cbn beta iota. unfold oneg. cbn [option_map].
+    destruct (gen_head_loop_negative rgs 0 0%Z n Hn (Z.le_refl 0)) as [t' [Hz _]].
+    change (Z.of_nat 0) with 0%Z in Hz. change (0 - 1)%Z with (-1)%Z in Hz. change (- (1))%Z with (-1)%Z.
+    rewrite Hz. unfold oadd, o2. f_equal. lia.
   Qed.
 
   Definition gen_head (h : handle D Name) (n : nat) (o : ropts Name) : res (frame R Name) :=
@@ -69,7 +107,7 @@ Section GenHeadProofs.
     gen_head h n o = bind (to_pandas neqb rows nrows h o) (fun f => Ok (frame_head n f)).
   Proof.
     intros h n o H. unfold gen_head, head_stop. cbn beta iota. unfold oneg. cbn [option_map].
-    destruct (gen_head_loop_spec (h_rgs h) 0 0%Z (Z.of_nat n) H) as [t' [z [Hz [H1 [H2 H3]]]]].
+    destruct (gen_head_loop_spec (h_rgs h) 0 0%Z (Z.of_nat n) H (Nat2Z.is_nonneg n)) as [t' [z [Hz [H1 [H2 H3]]]]].
     change (Z.of_nat 0) with 0%Z in Hz. change (0 - 1)%Z with (-1)%Z in Hz. change (- (1))%Z with (-1)%Z.
     rewrite Hz. unfold oadd, o2.
     assert (Hz0 : (0 <= z + 1)%Z) by lia.
@@ -92,3 +130,4 @@ Section GenHeadProofs.
 End GenHeadProofs.
 
 Print Assumptions gen_head_is_firstn_of_full.
+Print Assumptions gen_head_negative_selects_everything.
